@@ -185,7 +185,7 @@ def rec_loop(seed):
         if len(calls) >= 200:
             raise _Budget()
         iso = orig(self, sma, *a, **kw)
-        calls.append({'ph': 'central', 'k': 0, 'code': int(iso.stop_code)} if sma == 0.0 else {'ph': 'fit', 'k': expo(sma), 'code': int(iso.stop_code)})
+        calls.append({'ph': 'central' if sma == 0.0 else 'fit', 'k': 0 if sma == 0.0 else expo(sma), 'code': int(iso.stop_code), 'niter': int(iso.niter)})
         return iso
     rec = {'id': 2 * 10**7 + seed, 'kind': 'loop', 'par': {'HasMax': bool(maxsma), 'KMax': kmax, 'KMin': kmin, 'MinZero': minsma == 0.0, 'Variant': 'repaired'},
            'budget_exceeded': False, 'raised': False, 'final': [], 'params': {'law': law, 'mode': 'loop:' + mode, 'eps': int(eps * 100), 'fix': 'none', 'pa': 1},
